@@ -542,6 +542,10 @@ func runKV(prop string, seed uint64, tier string, replay *core.Schedule) (*core.
 		s.commitBase = func() { st.Commit(); res.Probe("iavl_base_commit") }
 	}
 	sched := &core.Schedule{Engine: "storesim", Property: prop, Seed: seed, Tier: tier, Config: core.Enc(cfg)}
+	if replay == nil && tier == "thorough" && seed%2 == 0 {
+		// the thorough tier also runs long histories (the configuration records the length)
+		cfg.Steps *= 3
+	}
 	n := cfg.Steps
 	if replay != nil {
 		n = len(replay.Steps)
